@@ -253,7 +253,9 @@ func checkC08(res *Result) {
 	res.Rule("C08-R3", "one lock at a time: no Lock, and no call of a function that locks, while another id is held")
 	lr := runPubLocks(p)
 	res.Functions = lr.nUnits
-	addLockFindings(res, p, lr, map[string]string{"CTA": "C08-R1", "RMW": "C08-R2", "NEST": "C08-R3"})
+	addLockFindings(res, p, lr, map[string]string{"CTA": "C08-R1", "RMW": "C08-R2", "NEST": "C08-R3", "R1": "C08-R6", "R3": "C08-R6"})
+	res.Rule("C08-R6", "a request releases only locks it holds (shared with C09-R1/R3): an Unlock — plain or deferred — of a key whose Lock failed, was not tested, or was never taken releases the lock of whichever request does hold it, and that request's check-then-act is no longer exclusive; and request handlers keep no state in their receiver (unsynchronised between concurrent requests)")
+	checkStatelessHandlers(res, p, "C08-R6")
 	n1, n2 := 0, 0
 	for _, o := range res.Obligs {
 		switch o.Rule {
